@@ -7,6 +7,7 @@ package log
 //@   serves C20
 //@   requires err != nil
 //@   ensures [C20:scrubbed_error] !unsafeLogging && NETERR(tag(err), payload(err)) ==> CLEAN(s)
+//@   ensures [C20:verbatim_otherwise] unsafeLogging || !NETERR(tag(err), payload(err)) ==> s == ERRTEXT(tag(err), payload(err))
 
 //@ func ElideAddr(addrStr) (s)
 //@   serves C20
